@@ -478,23 +478,43 @@ package loadbalancer
 //@ axiom errBackendFailure != nil
 //@ pred mtx(lb *LoadBalancer) *metrics.Metrics := lb.metricsCollector.metrics
 //@ pred outcomes(lb *LoadBalancer) int := mtx(lb).SuccessfulRequests + mtx(lb).FailedRequests + mtx(lb).RateLimitedRequests
-//@ pred reqOK(lb *LoadBalancer, r *http.Request) := r != nil && r.URL != nil
+//@ pred reqOK(lb *LoadBalancer, r *http.Request) := r != nil && r.URL != nil && bodyOK(r)
 //@ pred passiveOK(lb *LoadBalancer) := lb.healthChecks.unhealthyBackends != nil && lb.healthChecks.passiveThreshold >= 1
 //@      && (forall n string :: {lb.healthChecks.unhealthyBackends[n]} failCount(lb, n) >= 0 && failCount(lb, n) < lb.healthChecks.passiveThreshold)
 //@ pred below2to63(lb *LoadBalancer) := mtx(lb).SuccessfulRequests < 9223372036854775808 && mtx(lb).FailedRequests < 9223372036854775808
 //@      && mtx(lb).RateLimitedRequests < 9223372036854775808
 
+// C04 "passively ejected only after unhealthy_threshold failed (5xx or unreachable) responses": an exchange the
+// CLIENT abandoned (its request context is cancelled: disconnect, cancelled request) is answered 502 by the reverse
+// proxy's error handler although the backend produced no failed response - it is no health observation.
+// Helios sees that in two ways: the request's context is cancelled, or reading the client's body failed (upload
+// cut short, size limit exceeded) - proxyRequest wraps the body in a clientBody that remembers every failed read.
+//@ pred clientGone(r *http.Request) := gfield(reqctx(ptr(r)), context.Context.cancelled) || (dyntype(r.Body, *clientBody) && asptr(r.Body, *clientBody).failed != 0)
+//@ pred bodyOK(r *http.Request) := dyntype(r.Body, *clientBody) ==> asptr(r.Body, *clientBody) != nil
+//@ func (*clientBody).Read
+//@   props C04 C03 C01
+//@   requires b != nil && b.ReadCloser != nil
+//@   ensures every_failed_read_is_remembered: result1 != nil && result1 != io.EOF ==> b.failed != 0
+//@   ensures stays_remembered: old(b.failed) != 0 ==> b.failed != 0
+//@   ensures the_body_passes_through_unchanged@C01: lastReadBuf == p.base && result0 == lastReadN && result1.dyn == lastReadErrDyn && result1.ref == lastReadErrRef
+//@   modifies b.failed, lastReadBuf, lastReadN, lastReadErrDyn, lastReadErrRef
+//@ func abandonedByClient
+//@   props C04 C03
+//@   requires r != nil && bodyOK(r)
+//@   ensures result == clientGone(r)
 //@ func (*LoadBalancer).recordRequestMetrics
 //@   props C04 C13 C12 C03
+//@   ensures an_exchange_the_client_abandoned_is_no_health_observation@C04: clientGone(r) ==> backend.IsHealthy == old(backend.IsHealthy) && backend.UnhealthyUntil == old(backend.UnhealthyUntil)
+//@             && failCount(lb, backend.Name) == old(failCount(lb, backend.Name))
 //@   requires backend != nil && reqOK(lb, r) && lbOK(lb) && idle(lb) && bmCellsOK(lb.metricsCollector) && passiveOK(lb) && below2to63(lb)
 //@   ensures one_outcome: outcomes(lb) == old(outcomes(lb)) + 1 && mtx(lb).RateLimitedRequests == old(mtx(lb).RateLimitedRequests)
 //@   ensures classified_ok: statusCode < 500 ==> mtx(lb).SuccessfulRequests == old(mtx(lb).SuccessfulRequests) + 1 && mtx(lb).FailedRequests == old(mtx(lb).FailedRequests)
 //@   ensures classified_failed: statusCode >= 500 ==> mtx(lb).FailedRequests == old(mtx(lb).FailedRequests) + 1 && mtx(lb).SuccessfulRequests == old(mtx(lb).SuccessfulRequests)
 //@   ensures good_response_never_ejects: statusCode < 500 ==> backend.IsHealthy == old(backend.IsHealthy) && backend.UnhealthyUntil == old(backend.UnhealthyUntil)
 //@             && failCount(lb, backend.Name) == old(failCount(lb, backend.Name))
-//@   ensures eject_only_at_threshold: statusCode >= 500 && lb.healthChecks.passiveEnabled && old(failCount(lb, backend.Name)) + 1 < lb.healthChecks.passiveThreshold
+//@   ensures eject_only_at_threshold: statusCode >= 500 && !clientGone(r) && lb.healthChecks.passiveEnabled && old(failCount(lb, backend.Name)) + 1 < lb.healthChecks.passiveThreshold
 //@             ==> backend.IsHealthy == old(backend.IsHealthy) && failCount(lb, backend.Name) == old(failCount(lb, backend.Name)) + 1
-//@   ensures eject_at_threshold: statusCode >= 500 && lb.healthChecks.passiveEnabled && old(failCount(lb, backend.Name)) + 1 >= lb.healthChecks.passiveThreshold
+//@   ensures eject_at_threshold: statusCode >= 500 && !clientGone(r) && lb.healthChecks.passiveEnabled && old(failCount(lb, backend.Name)) + 1 >= lb.healthChecks.passiveThreshold
 //@             ==> !backend.IsHealthy && backend.UnhealthyUntil == now() + lb.healthChecks.passiveTimeout && failCount(lb, backend.Name) == 0
 //@   ensures passive_off: !lb.healthChecks.passiveEnabled ==> backend.IsHealthy == old(backend.IsHealthy)
 //@   ensures kept_cells: bmCellsOK(lb.metricsCollector)
@@ -517,6 +537,8 @@ package loadbalancer
 //@   ensures handed_to_the_backend_proxy_exactly_once_unchanged: proxied == old(proxied) + 1 && lastProxiedReq == ptr(r)
 //@             && asptr(lastProxiedWriter, *responseWriter).ResponseWriter == w
 //@   ensures_panic handed_over_once_before_abort: proxied == old(proxied) + 1 && lastProxiedReq == ptr(r)
+//@   ensures the_clients_body_is_watched@C04: old(r.Body) != nil && old(r.Body) != http.NoBody ==> dyntype(r.Body, *clientBody) && asptr(r.Body, *clientBody).ReadCloser == old(r.Body)
+//@   ensures no_body_stays_no_body: old(r.Body) == nil || old(r.Body) == http.NoBody ==> r.Body == old(r.Body)
 //@   ensures kept: bmCellsOK(lb.metricsCollector) && passiveOK(lb) && mtx(lb).TotalRequests == old(mtx(lb).TotalRequests)
 //@   ensures sent_request_is_counted_for_its_backend: old(has(mtx(lb).BackendMetrics, backend.Name)) && old(len(mtx(lb).BackendMetrics)) < metrics.MaxBackendMetrics ==> has(mtx(lb).BackendMetrics, backend.Name)
 //@             && mtx(lb).BackendMetrics[backend.Name].TotalRequests == (old(mtx(lb).BackendMetrics[backend.Name].TotalRequests) + 1) % 18446744073709551616
@@ -525,7 +547,7 @@ package loadbalancer
 //@   ensures_panic gauge_restored_on_abort: backend.ActiveConnections == old(backend.ActiveConnections)
 //@   ensures_panic aborted_counts_as_failed: mtx(lb).FailedRequests == old(mtx(lb).FailedRequests) + 1 && outcomes(lb) == old(outcomes(lb)) + 1
 //@   ensures_panic kept_on_abort: bmCellsOK(lb.metricsCollector) && passiveOK(lb) && mtx(lb).TotalRequests == old(mtx(lb).TotalRequests)
-//@   modifies proxied, lastProxiedReq, lastProxiedWriter, http.ResponseWriter.ceAtCommit, http.ResponseWriter.clAtCommit, backend.ActiveConnections, Backend.IsHealthy, Backend.UnhealthyUntil, mapof(lb.healthChecks.unhealthyBackends), mapof(lb.metricsCollector.metrics.BackendMetrics),
+//@   modifies r.Body, proxied, lastProxiedReq, lastProxiedWriter, http.ResponseWriter.ceAtCommit, http.ResponseWriter.clAtCommit, backend.ActiveConnections, Backend.IsHealthy, Backend.UnhealthyUntil, mapof(lb.healthChecks.unhealthyBackends), mapof(lb.metricsCollector.metrics.BackendMetrics),
 //@            metrics.BackendMetrics.IsHealthy, metrics.BackendMetrics.LastHealthCheck, metrics.BackendMetrics.TotalRequests, metrics.BackendMetrics.SuccessfulRequests,
 //@            metrics.BackendMetrics.FailedRequests, metrics.BackendMetrics.AverageResponseTime, metrics.BackendMetrics.ActiveConnections, metrics.Metrics.SuccessfulRequests,
 //@            metrics.Metrics.FailedRequests, metrics.Metrics.avgResponseTimeBits, responseWriter.statusCode, http.ResponseWriter.committed, http.ResponseWriter.status,
@@ -545,7 +567,7 @@ package loadbalancer
 //@   ensures kept: bmCellsOK(lb.metricsCollector) && passiveOK(lb) && mtx(lb).TotalRequests == old(mtx(lb).TotalRequests)
 //@   ensures_panic aborted_counts_as_failed: mtx(lb).FailedRequests == old(mtx(lb).FailedRequests) + 1 && outcomes(lb) == old(outcomes(lb)) + 1
 //@   ensures_panic kept_on_abort: mtx(lb).TotalRequests == old(mtx(lb).TotalRequests) && mtx(lb).RateLimitedRequests == old(mtx(lb).RateLimitedRequests)
-//@   modifies proxied, lastProxiedReq, lastProxiedWriter, http.ResponseWriter.ceAtCommit, http.ResponseWriter.clAtCommit, hashedKey, Backend.ActiveConnections, Backend.IsHealthy, Backend.UnhealthyUntil, RoundRobinStrategy.current, weightedBackend.currentWeight,
+//@   modifies r.Body, proxied, lastProxiedReq, lastProxiedWriter, http.ResponseWriter.ceAtCommit, http.ResponseWriter.clAtCommit, hashedKey, Backend.ActiveConnections, Backend.IsHealthy, Backend.UnhealthyUntil, RoundRobinStrategy.current, weightedBackend.currentWeight,
 //@            mapof(lb.healthChecks.unhealthyBackends), mapof(lb.metricsCollector.metrics.BackendMetrics),
 //@            metrics.BackendMetrics.IsHealthy, metrics.BackendMetrics.LastHealthCheck, metrics.BackendMetrics.TotalRequests, metrics.BackendMetrics.SuccessfulRequests,
 //@            metrics.BackendMetrics.FailedRequests, metrics.BackendMetrics.AverageResponseTime, metrics.BackendMetrics.ActiveConnections, metrics.Metrics.SuccessfulRequests,
